@@ -407,12 +407,12 @@ class Client(base_client.BaseClient):
         self.logger.info('Received ack [%s]', namespace)
         callback = None
         try:
-            callback = self.callbacks[namespace][id]
+            # (looked up and removed in one step: the same acknowledgement may
+            # be handled by two threads at once)
+            callback = self.callbacks[namespace].pop(id)
         except KeyError:
             # if we get an unknown callback we just ignore it
             self.logger.warning('Unknown callback received, ignoring.')
-        else:
-            del self.callbacks[namespace][id]
         if callback is not None:
             callback(*data)
 
